@@ -293,4 +293,50 @@ def run_case(spec):
                 if rng.random() < 0.5:
                     par2[c + 'min'] = -par2['d' + c] * (par2['N' + c] // 2) + 0.37 * par2['d' + c]
             check_consumers(res, par2, order)
+            # two boxes with the same shape and spacing but different origins,
+            # one after the other in this process: each describes its own grid
+            # (flat space: the null expansions about the box centre are +-2/r)
+            pa = dict(par2)
+            for c, n in zip('xyz', (12, 13, 14)):
+                pa['N' + c] = n
+            pb = dict(pa)
+            for c in 'xyz':
+                pb[c + 'min'] = pa[c + 'min'] + (0.37 + int(rng.integers(0, 3))) * pa['d' + c]
+            ctr = tuple(pa[c + 'min'] + 0.5 * (pa['N' + c] - 1) * pa['d' + c] for c in 'xyz')
+            for pq in (pa, pb):
+                for c in ('xmax', 'ymax', 'zmax', 'Lx', 'Ly', 'Lz'):
+                    pq.pop(c, None)
+                check_null_rays(res, pq, 4, ctr)      # same extraction centre in both
     return res
+
+
+def check_null_rays(res, par, order, mid):
+    A = harness.aurel()
+    N = (par['Nx'], par['Ny'], par['Nz'])
+    try:
+        with common.Quiet():
+            fd = A.FiniteDifference(dict(par), fd_order=order, verbose=False)
+            rel = A.AurelCore(fd, verbose=False, center=mid)
+            out = np.asarray(rel['null_ray_exp_out'])
+            inn = np.asarray(rel['null_ray_exp_in'])
+    except Exception as e:
+        res['observations'] += 1
+        common.add_violation(res, f"consumer raises {type(e).__name__}", {"param": par, "err": repr(e)[:200]})
+        return
+    ax = [np.array([par[c + 'min'] + i * par['d' + c] for i in range(N[k])]) - mid[k]
+          for k, c in enumerate('xyz')]
+    X, Y, Z = np.meshgrid(*ax, indexing='ij')
+    rc = np.sqrt(X * X + Y * Y + Z * Z)
+    mg = 4                      # away from the one-sided stencils
+    I = (slice(mg, -mg),) * 3
+    m = rc[I] > 3.0 * max(par['dx'], par['dy'], par['dz'])
+    res['observations'] += 1
+    if not m.any():
+        return
+    eo = np.abs(out[I][m] * rc[I][m] / 2 - 1).max()
+    ei = np.abs(inn[I][m] * rc[I][m] / 2 + 1).max()
+    if not (eo < 0.25 and ei < 0.25):
+        common.add_violation(res, "null_ray_exp_* of flat space is not +-2/r about the centre of THIS grid",
+                             {"param": par, "center": mid, "err_out": float(eo), "err_in": float(ei)})
+    else:
+        res['nontrivial'].append(['null rays', str(N), par['xmin'], par['dx']])
